@@ -2,6 +2,7 @@ package spec
 
 import (
 	"go/ast"
+	"regexp"
 	"strings"
 
 	"lndlint/internal/an"
@@ -289,8 +290,8 @@ func runC04(r *an.Run) {
 	revocationAcceptance(r)
 
 	r.Obl("state-hint-obfuscator-order", "MIRROR",
-		"every DeriveStateHintObfuscator call passes the initiator's payment base point first: (Local, Remote) only below IsInitiator, (Remote, Local) only below !IsInitiator",
-		"the breach is recognised by de-obfuscating the state number; a swapped order hides every revoked state", 4,
+		"every DeriveStateHintObfuscator call passes the two PaymentBasePoint.PubKey of one channel, the initiator's first: (Local, Remote) only below that channel's IsInitiator, (Remote, Local) only below !IsInitiator; at funding time the funder passes (ours, theirs), the fundee (theirs, ours) and a dual-funded channel puts the key first whose serialisation compares lower (bytes.Compare(ours, theirs) == -1 -> ours first); DeriveStateHintObfuscator hashes its first parameter before its second",
+		"the breach is recognised by de-obfuscating the state number; a swapped order or another key pair hides every revoked state", 4,
 		func(o *an.Obl) {
 			n, nFund := 0, 0
 			defer func() {
@@ -298,32 +299,51 @@ func runC04(r *an.Run) {
 					o.FailAt("obfuscator#funding-sites", "", "expected the 4 funding-time construction sites in lnwallet/wallet.go, found %d", nFund)
 				}
 			}()
+			// an argument is the payment base point of one side of one channel
+			localRe := regexp.MustCompile(`^(.*)\.(?:LocalChanCfg|ourContribution)\.PaymentBasePoint\.PubKey$`)
+			remoteRe := regexp.MustCompile(`^(.*)\.(?:RemoteChanCfg|theirContribution)\.PaymentBasePoint\.PubKey$`)
+			// classify returns "local"/"remote" for the first argument when the
+			// two arguments are the two base points of the same channel
+			classify := func(a []string) (first, base string) {
+				if l, r := localRe.FindStringSubmatch(a[0]), remoteRe.FindStringSubmatch(a[1]); l != nil && r != nil && l[1] == r[1] {
+					return "local", l[1]
+				}
+				if r, l := remoteRe.FindStringSubmatch(a[0]), localRe.FindStringSubmatch(a[1]); l != nil && r != nil && l[1] == r[1] {
+					return "remote", l[1]
+				}
+				return "", ""
+			}
 			for _, f := range r.Wide().Funcs(false) {
 				for _, s := range f.Calls(an.CalleeIs(lw+"DeriveStateHintObfuscator"), false) {
+					a := f.ArgCanon(s)
+					first, base := classify(a)
 					if strings.HasSuffix(f.Filename(), "lnwallet/wallet.go") {
 						// funding flow: the role is fixed by the code path: the
 						// funder continues in handleChanPointReady, the fundee
 						// signs in handleSingleFunderSigs; a dual-funded channel
 						// orders the two keys by their serialisation
-						a := f.ArgCanon(s)
-						ours := strings.Contains(a[0], "ourContribution") && strings.Contains(a[1], "theirContribution")
-						theirs := strings.Contains(a[0], "theirContribution") && strings.Contains(a[1], "ourContribution")
+						ours, theirs := first == "local", first == "remote"
 						o.Site("funding-time site %s: (%s, %s)", f.Root().ID, a[0], a[1])
 						nFund++
 						switch f.Root().ID {
 						case lw + "LightningWallet.handleChanPointReady":
+							ser := func(side string) an.Term {
+								return canonTerm(`^` + regexp.QuoteMeta(base) + `\.` + side + `\.PaymentBasePoint\.PubKey\.SerializeCompressed\(\)$`)
+							}
+							cmp := an.CallTo("bytes.Compare", nil, ser("ourContribution"), ser("theirContribution"))
 							single, _ := f.Guarded(s, an.Truth(an.CallNamed("IsSingleFunder", nil), true, ""))
-							lower, _ := f.Guarded(s, an.Cmp(an.CallTo("bytes.Compare", nil), an.EQ, canonTerm(`^-1$`), ""))
+							lower, _ := f.Guarded(s, an.Cmp(cmp, an.EQ, canonTerm(`^-1$`), ""))
 							switch {
 							case ours && (single || lower):
 							case theirs && !single && !lower:
 								guarded(o, f, s, an.Truth(an.CallNamed("IsSingleFunder", nil), false, "dual funder"))
+								guarded(o, f, s, an.Cmp(cmp, an.NE, canonTerm(`^-1$`), "bytes.Compare(our serialised base point, their serialised base point) != -1"))
 							default:
-								o.FailAt(f.Root().ID+"#obfuscator-order", s.Where(), "the funder derives the obfuscator from (%s, %s) here; expected its own base point first (single funder, or the lower key of a dual-funded channel)", a[0], a[1])
+								o.FailAt(f.Root().ID+"#obfuscator-order", s.Where(), "the funder derives the obfuscator from (%s, %s) here; expected its own payment base point first (single funder, or the lower key of a dual-funded channel: bytes.Compare(ours, theirs) == -1)", a[0], a[1])
 							}
 						case lw + "LightningWallet.handleSingleFunderSigs":
 							if !theirs {
-								o.FailAt(f.Root().ID+"#obfuscator-order", s.Where(), "the fundee derives the obfuscator from (%s, %s); expected the funder's (their) base point first", a[0], a[1])
+								o.FailAt(f.Root().ID+"#obfuscator-order", s.Where(), "the fundee derives the obfuscator from (%s, %s); expected the funder's (their) payment base point first, then ours", a[0], a[1])
 							}
 						default:
 							o.FailAt(f.Root().ID+"#obfuscator-site", s.Where(), "%s derives a state hint obfuscator; the funding-time sites are tabled", f.Root().ID)
@@ -331,26 +351,42 @@ func runC04(r *an.Run) {
 						continue
 					}
 					n++
-					a := f.ArgCanon(s)
 					o.Site("%s (%s, %s)", s.String(), a[0], a[1])
-					localFirst := (strings.Contains(a[0], "LocalChanCfg") || strings.Contains(a[0], "ourContribution") || strings.Contains(a[0], "localPayBase")) &&
-						(strings.Contains(a[1], "RemoteChanCfg") || strings.Contains(a[1], "theirContribution") || strings.Contains(a[1], "remotePayBase"))
-					remoteFirst := (strings.Contains(a[0], "RemoteChanCfg") || strings.Contains(a[0], "theirContribution") || strings.Contains(a[0], "remotePayBase")) &&
-						(strings.Contains(a[1], "LocalChanCfg") || strings.Contains(a[1], "ourContribution") || strings.Contains(a[1], "localPayBase"))
-					isInit := an.AnyOf("IsInitiator", an.Truth(an.FieldPath(nil, "IsInitiator"), true, ""), an.Truth(an.LocalNamed("initiator"), true, ""), an.Truth(an.LocalNamed("isInitiator"), true, ""))
-					notInit := an.AnyOf("!IsInitiator", an.Truth(an.FieldPath(nil, "IsInitiator"), false, ""), an.Truth(an.LocalNamed("initiator"), false, ""), an.Truth(an.LocalNamed("isInitiator"), false, ""))
-					switch {
-					case localFirst:
-						guarded(o, f, s, isInit)
-					case remoteFirst:
-						guarded(o, f, s, notInit)
+					// the role flag of the very channel whose keys are passed; the
+					// condition itself must be that field (a local is followed to
+					// its single definition by the canonical form)
+					flag := canonTerm(`^` + regexp.QuoteMeta(base) + `\.IsInitiator$`)
+					switch first {
+					case "local":
+						guarded(o, f, s, an.Truth(flag, true, "IsInitiator"))
+					case "remote":
+						guarded(o, f, s, an.Truth(flag, false, "!IsInitiator"))
 					default:
-						o.FailAt(f.ID+"#obfuscator-args", s.Where(), "cannot classify the arguments (%s, %s) as local/remote payment base points", a[0], a[1])
+						o.FailAt(f.ID+"#obfuscator-args", s.Where(), "cannot classify the arguments (%s, %s) as the local and remote PaymentBasePoint.PubKey of one channel", a[0], a[1])
+					}
+					for _, arg := range s.Node.(*ast.CallExpr).Args {
+						c04OperandsNotOverwritten(o, f, arg, "obfuscator key")
 					}
 				}
 			}
 			if n < 2 {
 				o.FailAt("obfuscator#sites", "", "expected at least the two construction sites of the obfuscator, found %d", n)
+			}
+			// the helper itself: sha256(first || second)
+			d := p.Func(lw + "DeriveStateHintObfuscator")
+			wr := d.Calls(an.CalleeNamed("Write"), true)
+			if needExactly(o, d, "hash writes", wr, 2) {
+				for i, s := range wr {
+					want := "$p" + itoa(i) + ".SerializeCompressed()"
+					if a := d.ArgCanon(s); len(a) != 1 || a[0] != want {
+						o.FailAt(d.ID+"#hash-order", s.Where(), "hash write %d of DeriveStateHintObfuscator feeds %v, expected %s (initiator key first)", i+1, a, want)
+					}
+					c04OperandsNotOverwritten(o, d, s.Node.(*ast.CallExpr).Args[0], "hashed key")
+				}
+				if d.Canon(wr[0].Node.(*ast.CallExpr).Fun) != d.Canon(wr[1].Node.(*ast.CallExpr).Fun) {
+					o.FailAt(d.ID+"#hash-receiver", wr[1].Where(), "the two keys are written to different hashers")
+				}
+				before(o, d, "write of the first key", wr[:1], "write of the second key", wr[1:])
 			}
 		})
 
